@@ -205,4 +205,80 @@ theorem finish_inv {cfg : Cfg} {st st' : St} {r : Req} {acc : KeyAcc} {evs evs' 
         scanKey_neutral _ _ (by simp [neutral])]
       exact CacheInv_congr rfl rfl hinv
 
+theorem method_core {cfg : Cfg} {st st' : St} {r : Req} {acc : KeyAcc} {evs : List Ev}
+    (hinv : CacheInv cfg st acc)
+    (hph : methodPhase cfg st r = .again st' evs ∨ ∃ p e, methodPhase cfg st r = .res st' evs p e) :
+    CacheInv cfg st' (scanKey acc evs) := by
+  unfold methodPhase at hph
+  split at hph
+  · unfold nonePhase at hph
+    (repeat' split at hph) <;> simp at hph <;> obtain ⟨rfl, rfl⟩ := hph
+    · rw [scanKey_neutral _ _ (by simp [neutral])]; exact CacheInv_congr rfl rfl hinv
+    · exact CacheInv_congr rfl rfl hinv
+    · exact CacheInv_congr rfl rfl hinv
+  · split at hph
+    · unfold pwPhase at hph
+      (repeat' split at hph) <;> simp at hph <;> obtain ⟨rfl, rfl⟩ := hph
+      · exact hinv
+      · rw [scanKey_neutral _ _ (by simp [neutral])]; exact hinv
+    · split at hph
+      · unfold kbdPhase at hph
+        (repeat' split at hph) <;> simp at hph <;> obtain ⟨rfl, rfl⟩ := hph
+        · exact hinv
+        · rw [scanKey_neutral _ _ (by simp [neutral])]; exact hinv
+      · split at hph
+        · exact (pk_core hinv hph).1
+        · simp at hph
+          obtain ⟨rfl, rfl⟩ := hph
+          exact hinv
+
+theorem bannerPhase_neutral (cfg : Cfg) (st : St) : (bannerPhase cfg st).2.all neutral = true := by
+  unfold bannerPhase
+  (repeat' split) <;> simp [neutral]
+
+/-- the cache invariant is preserved by every loop iteration that continues -/
+theorem step_inv {cfg : Cfg} {st st' : St} {r : Req} {acc : KeyAcc} {evs : List Ev}
+    (hinv : CacheInv cfg st acc) (h : step cfg (bump st) r = .cont st' evs) :
+    CacheInv cfg st' (scanKey acc evs) := by
+  unfold step at h
+  split at h
+  · simp at h
+  split at h
+  · simp at h
+  simp only [] at h
+  generalize hsb : bannerPhase cfg { bump st with user := r.user } = sb at h
+  have hf := bannerPhase_fields cfg { bump st with user := r.user }
+  have hn := bannerPhase_neutral cfg { bump st with user := r.user }
+  rw [hsb] at hf hn
+  have hinv1 : CacheInv cfg sb.1 acc := by
+    apply CacheInv_congr _ _ hinv <;> rw [hf] <;> rfl
+  split at h
+  · simp at h
+  · rename_i st2 evs2 hm
+    simp at h
+    obtain ⟨rfl, rfl⟩ := h
+    rw [scanKey_append, scanKey_neutral _ _ hn]
+    exact method_core hinv1 (Or.inl hm)
+  · rename_i st2 evs2 perms e hm
+    have hinv2 := method_core hinv1 (Or.inr ⟨perms, e, hm⟩)
+    split at h
+    · simp at h
+    · rename_i st3 evs3 hfin
+      simp at h
+      obtain ⟨rfl, rfl⟩ := h
+      rw [scanKey_append, scanKey_neutral _ _ hn]
+      exact finish_inv hinv2 hfin
+
+theorem steps_inv {cfg : Cfg} {st st' : St} {rs : List Req} {acc : KeyAcc} {evs : List Ev}
+    (hinv : CacheInv cfg st acc) (h : Steps cfg st rs st' evs) : CacheInv cfg st' (scanKey acc evs) := by
+  induction h generalizing acc with
+  | nil st => simpa [scanKey] using hinv
+  | cons ht hs _ ih =>
+    rw [scanKey_append]
+    exact ih (step_inv hinv hs)
+
+theorem init_inv (cfg : Cfg) : CacheInv cfg (St.init cfg) none := by
+  intro c hc
+  simp [St.init] at hc
+
 end XC.C32
